@@ -58,6 +58,9 @@ def run(ctx):
   ok = pm.write_sorts_events()
   ctx.ob('ORD/pm-write-sorts', w, 'PrettyMIDI.write', ok, 'installed PrettyMIDI.write sorts events (bag accumulation into pm lists is order-insensitive)' if ok else
          'installed PrettyMIDI.write does not sort: accumulation order would reach the file', construct='PrettyMIDI.write sorts')
+  from sa import pitfalls
+  pitfalls.apply(ctx, 'PITFALL', [w0, r], ['stale-sibling'], {
+      'stale-sibling': 'every interval after the first is measured with the first element\'s scale: tempo changes after the second are placed at the wrong time'})
   grouping.check(ctx, w0, 'GROUP/sort-refines-group-key')
   grouping.check(ctx, r, 'GROUP/sort-refines-group-key')
   order(ctx, w0)       # the generic order analysis first: it needs no anchor, so a reshaped accumulation is still judged
